@@ -792,7 +792,6 @@ func (e *Env) callExpr(n *ast.CallExpr) Val {
 			e.u.ensureStrKeys()
 			p, ln := app(strptrFn, bv), app(strlenFn, bv)
 			kv = Val{T: mt.Key(), S: []string{p, ln}, KeyID: bv}
-			typing = append(typing, eq(app(stridFn, p, ln), bv), le("0", ln), le(ln, "1099511627776"), le("0", p))
 			if e.st != nil && e.st.mem != nil && e.specSites == nil {
 				typing = append(typing, le(add(p, ln), e.st.mem.alloc))
 			}
@@ -893,7 +892,7 @@ func (e *Env) callExpr(n *ast.CallExpr) Val {
 		bv := quoteSym("q!" + id.Name)
 		p, ln := app(strptrFn, bv), app(strlenFn, bv)
 		kv := Val{T: types.Typ[types.String], S: []string{p, ln}, KeyID: bv}
-		typing := and(eq(app(stridFn, p, ln), bv), le("0", ln), le(ln, "1099511627776"), le("0", p))
+		typing := "true"
 		ne := e.withBound(id.Name, kv)
 		var facts []string
 		ne.qdepth = e.qdepth + 1
